@@ -377,12 +377,30 @@ def gen_content(rng, cls, big):
         blk = hashlib.sha256(b'%d' % seed).digest()
         data = (blk * (big // 32 + 1))[:big // 2] + bytes((i * 7 + seed) & 255 for i in range(big // 2))
         return {'kind': 'bytes', 'hex': data.hex(), 'cls': cls, 'gen': seed}
+    if cls.startswith('far-repeat:'):
+        # prose-like text over a large vocabulary in which a 1-2 kB record occurs twice, D octets apart: the compressor
+        # emits a back reference of distance D (up to the 32 kB window), which short-period or random data never needs
+        dist = int(cls.split(':')[1])
+        seed = rng.randrange(2**32)
+        import random as _r
+        g = _r.Random(seed)
+        vocab = [''.join(g.choice('abcdefghijklmnopqrstuvwxyz') for _ in range(g.randrange(2, 11))) for _ in range(6000)]
+        def prose(n):
+            out, ln = [], 0
+            while ln < n:
+                w = g.choice(vocab) + g.choice([' ', ' ', ' ', ', ', '. ', '\n'])
+                out.append(w); ln += len(w)
+            return ''.join(out)[:n]
+        record = ' '.join('%012x' % g.getrandbits(48) for _ in range(g.randrange(80, 150))) + '\n'
+        data = (prose(g.randrange(2000, 5000)) + record + prose(dist - len(record)) + record + prose(g.randrange(500, 3000))).encode('ascii')
+        return {'kind': 'bytes', 'hex': data.hex(), 'cls': cls, 'gen': seed}
     if cls == 'big-text':
         seed = rng.randrange(2**32)
         return {'kind': 'str', 'text': (u'Zeile %d äöü ✓\n' % seed) * (big // 24), 'cls': cls, 'gen': seed}
     raise ValueError(cls)
 
 
+FAR_DISTANCES = [8200, 24000, 32400]
 NAMES = ['', 'a.txt', u'café.txt', u'ÿ é', 'x' * 255, '_CONSOLE', 'dir name.tar.gz']
 TIMES = [0, 1, ts(T0), 2**31 - 1, 2**31, 2**32 - 1]
 
@@ -464,6 +482,11 @@ def _run(ctx, pgpy, d, tmp):
     for nm in ['plain.txt', u'café.txt', 'y' * 255]:
         cases.append({'content': gen_content(rng, 'binary', 0), 'format': None, 'encoding': None, 'filename': nm, 'mtime': 1234567890, 'comp': 2,
                       'signers': gen_signers(rng, K, 2, fast), 'armor': False, 'file': True})
+    # long-distance repetitions (window handling of the decompressor): just above 8 kB, mid window, near the 32 kB limit
+    for comp in range(4):
+        for j, dist in enumerate(FAR_DISTANCES):
+            cases.append({'content': gen_content(rng, 'far-repeat:%d' % dist, 0), 'format': [None, 'b', 't'][(comp + j) % 3], 'encoding': None,
+                          'filename': 'far.txt', 'mtime': ts(T0), 'comp': comp, 'signers': gen_signers(rng, K, (comp + j) % 3, fast), 'armor': comp == 1 and j == 1})
     # megabytes
     big = ctx.n(65536, 1 << 20)
     for cls, comp in (('big-binary', 0), ('big-binary', 1), ('big-text', 2), ('big-binary', 3)) if not ctx.quick else (('big-binary', 1), ('big-text', 3)):
@@ -597,7 +620,7 @@ def _run(ctx, pgpy, d, tmp):
     # ---- 3b. the premise of the byte-level theorems, on the implementation's primitive: decompress(compress x) = x,
     #          and the oracle the model is run with is the same function
     for alg in range(4):
-        for cls in ['empty', 'ascii', 'binary', 'all-octets', 'utf8-bytes', 'big-binary']:
+        for cls in ['empty', 'ascii', 'binary', 'all-octets', 'utf8-bytes', 'big-binary'] + ['far-repeat:%d' % x for x in FAR_DISTANCES]:
             data = bytes.fromhex(gen_content(rng, cls, ctx.n(65536, 1 << 20))['hex'])
             comp = outcome(lambda: bytes(CA(alg).compress(data)))
             ctx.case('compress-roundtrip', (alg, cls, hashlib.sha1(data).hexdigest()), sample={'alg': alg, 'cls': cls, 'len': len(data)})
